@@ -482,8 +482,27 @@ func c19Spaces(c *fw.Ctx) {
 	for i := 0; i < len(namesB) && len(orgs) < 100; i += 97 {
 		orgs = append(orgs, namesB[i])
 	}
-	c.Space("origin", fmt.Sprintf("%d relative names (and @) × %d origins: TrimDomainName(AddOrigin(r,o),o) == r; for names under o: AddOrigin(TrimDomainName(s,o),o) denotes s; non-trivial: origin is not the root", len(rel), len(orgs)), true,
+	c.Space("origin", fmt.Sprintf("%d relative names (and @) × %d origins, plus the empty origin (nothing appended, nothing trimmed, no panic): TrimDomainName(AddOrigin(r,o),o) == r; for names under o: AddOrigin(TrimDomainName(s,o),o) denotes s; non-trivial: origin is not the root", len(rel), len(orgs)), true,
 		func(emit func(func(*fw.R))) {
+			// the empty origin: AddOrigin documents ("foo", "") -> "foo" (nothing to append), so there is nothing to trim either
+			emit(func(r *fw.R) {
+				r.Nontrivial()
+				for _, rl := range rel {
+					rs := rl.s[:len(rl.s)-1]
+					func() {
+						defer func() {
+							if e := recover(); e != nil {
+								r.Fail("empty-origin/panic", "TrimDomainName(%q, \"\") panics: %v", rs, e)
+							}
+						}()
+						if full := dnsutil.AddOrigin(rs, ""); full != rs {
+							r.Fail("empty-origin/AddOrigin", "AddOrigin(%q, \"\") = %q, documented: the name itself", rs, full)
+						} else if back := dnsutil.TrimDomainName(full, ""); back != rs {
+							r.Fail("empty-origin/Trim-after-Add", "TrimDomainName(AddOrigin(%q, \"\"), \"\") = %q", rs, back)
+						}
+					}()
+				}
+			})
 			for oi := range orgs {
 				o := orgs[oi]
 				emit(func(r *fw.R) {
